@@ -1,6 +1,7 @@
 import Lean.Data.Json
 import MC.Spec.Variant
 import MC.Model.Preproc
+import MC.Model.Prefs
 open Lean
 
 namespace MC.Driver
@@ -45,7 +46,42 @@ def handlePreproc (op : String) (req : Json) : Option Json :=
       | .error u => Json.mkObj [("r", "err"), ("kind", "unknown-entity"), ("name", ofCps u)]
   | _ => none
 
-def handlers : List (String → Json → Option Json) := [handleVariant, handlePreproc]
+/-- C12 ops: a whole op sequence is replayed from the initial state in one request -/
+def prefsStep (s : MC.Prefs.PState) (op : Json) : MC.Prefs.PState × Json :=
+  let a := op.getArr?.toOption.getD #[]
+  let str (i : Nat) : String := ((a[i]?.getD Json.null).getStr?).toOption.getD ""
+  match str 0 with
+  | "get" =>
+    match MC.Prefs.getPreference s (str 1) with
+    | .ok v => (s, okJ v)
+    | .err k => (s, errJ k "")
+    | .panic p => (s, panicJ p)
+  | "set" =>
+    let fl : Option String := ((a[3]?.getD Json.null).getStr?).toOption
+    let filesOk : Bool := ((a[4]?.getD (Json.bool true)).getBool?).toOption.getD true
+    let E : MC.Prefs.Env := { filesOk := fun _ _ => filesOk, normFloat := fun _ => fl }
+    match MC.Prefs.setPreference E s (str 1) (str 2) with
+    | .ok s' => (s', okJ Json.null)
+    | .err k => (s, errJ k "")
+    | .panic p => (s, panicJ p)
+  | "init" => (MC.Prefs.initState, okJ Json.null)
+  | "fresh" => (MC.Prefs.uninit, okJ Json.null)
+  | _ => (s, errJ "bad-op" "prefs")
+
+def handlePrefs (op : String) (req : Json) : Option Json :=
+  match op with
+  | "prefs_run" =>
+    let ops := ((req.getObjVal? "ops").toOption.getD (Json.arr #[])).getArr?.toOption.getD #[]
+    let (_, outs) := ops.foldl (fun (acc : MC.Prefs.PState × Array Json) o =>
+      let (s', r) := prefsStep acc.1 o; (s', acc.2.push r)) (MC.Prefs.uninit, #[])
+    some (okJ (Json.arr outs))
+  | "prefs_names" =>
+    let s := MC.Prefs.initState
+    some <| okJ <| Json.arr <| ((s.user ++ s.api).map fun (k, v) =>
+      Json.arr #[toJson k, toJson (match v with | .str _ => "str" | .bool _ => "bool" | .num _ => "num"), toJson v.render]).toArray
+  | _ => none
+
+def handlers : List (String → Json → Option Json) := [handleVariant, handlePreproc, handlePrefs]
 
 def handle (req : Json) : Json :=
   let op := getStr req "op"
